@@ -168,6 +168,22 @@ def dec_text(x):
     return r
 
 
+def alt_texts(x):
+    """Other decimal texts Excel reads as the number x: no digit before the
+    point (.5), no digit after it (5.), an explicit plus sign (+5)."""
+    out = []
+    d = dec_text(x)
+    if 0 < abs(x) < 1:
+        out.append(('dot', d.replace('0.', '.', 1)))
+    if float(x) == int(x):
+        out.append(('trail', d + '.'))
+    if x > 0:
+        out.append(('plus', '+' + d))
+    for _lab, t in out:
+        assert is_numeric_text(t) and float(t) == float(x), (x, t)
+    return out
+
+
 def number_spellings(x, direct=True):
     """[(label, carrier family, spec)] - every way the checks spell the number
     x; the first entry is the canonical one.  ``direct``: for a direct call
@@ -188,6 +204,9 @@ def number_spellings(x, direct=True):
         out.append(('Text-dec', 'text', ['Text', dec_text(x)]))
         out.append(('str-sci', 'text-sci', ['str', sci_text(x)]))
         out.append(('Text-sci', 'text-sci', ['Text', sci_text(x)]))
+        for lab, t in alt_texts(x):
+            out.append(('str-' + lab, 'text', ['str', t]))
+            out.append(('Text-' + lab, 'text', ['Text', t]))
         if x in (0, 1):
             out.append(('bool', 'bool', ['bool', bool(x)]))
             out.append(('Boolean', 'bool', ['Boolean', bool(x)]))
@@ -202,6 +221,9 @@ def number_spellings(x, direct=True):
         out.append(('lit-text-dec', 'text', ['str', dec_text(x)], 'lit'))
         out.append(('cell-text-dec', 'text', ['str', dec_text(x)], 'cell'))
         out.append(('lit-text-sci', 'text-sci', ['str', sci_text(x)], 'lit'))
+        for lab, t in alt_texts(x):
+            out.append(('lit-text-' + lab, 'text', ['str', t], 'lit'))
+            out.append(('cell-text-' + lab, 'text', ['str', t], 'cell'))
         if x in (0, 1):
             out.append(('lit-bool', 'bool', ['bool', bool(x)], 'lit'))
             out.append(('cell-bool', 'bool', ['bool', bool(x)], 'cell'))
